@@ -4,6 +4,9 @@ CONSTANTS
   MaxGens = 4
   MaxClients = 5
   MaxFaults = 4
+  MaxStalls = 1
+  MaxAsk = 2
+  AskSelectsQuit = TRUE
   FixCallEntry = TRUE
   FixResetSnapshot = TRUE
   FixRemoveOwn = TRUE
